@@ -80,6 +80,10 @@ def crawl_site(chk: Check, site: driver.Site, view: str, kind_of: typing.Dict[by
                 if not e.local:
                     chk.count("remote_or_url_links_not_followed")
                     continue
+                if fam == "http" and (e.selector == b"/wap" or e.selector.startswith(b"/wap/")):
+                    # documented: over HTTP the waptop path *is* the WAP view of the site
+                    chk.count("http_links_shadowed_by_waptop_not_followed")
+                    continue
                 q = b"needle" if e.search and fam != "gemini" else None
                 r2, tls2 = crawl.follow_request(view, e, q)
                 todo.append((r2, tls2, e, req[:80]))
@@ -113,12 +117,23 @@ def _nameclass(e: typing.Optional[crawl.Entry]) -> str:
 def extra_names(rng, model: sites.SiteModel) -> None:
     """Names that sit next to the server's reserved words, and virtual-selector characters."""
     t = model.tree
+    dirs = set()
     for n in ["wapiti.txt", "GEMINI-QUERYx.txt", "URLs.txt", "a|b.txt", "c?d.txt", "100% sure.txt", "x&y=z.txt",
               "semi;colon.txt", "quote\"d.txt", "tick'd.txt", "<angle>.txt", "hash#tag.txt", "plus+plus.txt",
               "a b 12", "back\\slash.txt", "tilde~.txt", "colon:name.txt", "@at.txt", "sub dir/in ner.txt",
-              "wapdir/inner.txt", "café d/été.txt"]:
-        t.file(n, "content of %s\n" % n)
+              "wapdir/inner.txt", "café d/été.txt", "wap/notes.txt", "wap/phones/list.txt", "sale%20off.txt", "a%41.txt",
+              "pct%2Fdir/50%25.txt"]:
+        data = "content of %s\n" % n
+        t.file(n, data)
+        model.add(b"/" + n.encode(), "doc", data.encode(), mime="text/plain" if n.endswith(".txt") else None, tags=["file", "extra"])
+        parts = n.split("/")[:-1]
+        for i in range(len(parts)):
+            dirs.add("/".join(parts[:i + 1]))
     t.file(b"lat\xe9n/f\xefle.txt", b"latin1 names\n")
+    model.add(b"/lat\xe9n/f\xefle.txt", "doc", b"latin1 names\n", mime="text/plain", tags=["file", "extra"])
+    model.add(b"/lat\xe9n", "menu", tags=["dir", "extra"])
+    for d in sorted(dirs):
+        model.add(b"/" + d.encode(), "menu", tags=["dir", "extra"])
 
 
 def main() -> int:
@@ -154,8 +169,9 @@ def main() -> int:
              "served kind, name class)",
         assumptions=["remote entries, URL: links and informational lines are counted, not followed",
                      "type-7 links are followed with a query (Gemini: must prompt)",
-                     "reserved name spaces the documents give to the protocols are not used as content names: a "
-                     "root entry called exactly 'wap', selectors starting 'URL:', '/PYGOPHERD-HTTPPROTO-ICONS/'"])
+                     "reserved name spaces the documents give to the protocols: a root entry called exactly 'wap' is "
+                     "followed in every protocol except HTTP/HTTPS (where /wap is by documentation the WAP view of the "
+                     "site); selectors starting 'URL:' and '/PYGOPHERD-HTTPPROTO-ICONS/' are not used as content names"])
 
 
 if __name__ == "__main__":
